@@ -623,7 +623,10 @@ func runC14(c *vh.Ctx) {
 	c.Rule("a case is (program, history of 0-4 Execute/ExecuteContext calls each with its own input, Vars, Args, ENVIRON, input/output " +
 		"mode incl. CSV header, Chars, sandbox flags, entry point (Execute, ExecuteContext with background / cancellable / cancelled / " +
 		"expired context) and ending (normal, exit, error inside a function inside a loop, cancelled from a native function, config error), " +
-		"reset or not, probe call); programs: 14 hand-written ones and the operation-script interpreter shared with the Lean model; " +
+		"reset or not, probe call); programs: 18 hand-written ones, the operation-script interpreter shared with the Lean model, and " +
+		"generated global-free programs of 2-4 functions with mixed local arrays and scalars that report their locals on every entry and " +
+		"are left by return, falling off the end, exit, next, nextfile, division by zero, call-depth overflow or cancellation at depth " +
+		"0-9 (history: 1-4 runs, at least one preferring to die inside a function, often a run on empty input before the probe); " +
 		"non-trivial = the history has at least one run")
 	c14InitRandTable()
 
@@ -673,6 +676,16 @@ func runC14(c *vh.Ctx) {
 		c14Case{Prog: `/start/,/stop/ { print "in", $0 }`, History: []c14Run{{Entry: "exec", Input: "start\nx\n"}}, Reset: true,
 			Probe: c14Run{Entry: "exec", Input: "before\nstart\ny\nstop\nafter\n"}},
 	)
+	// class of seeded C14-p1: a run that dies inside a function which has filled a local array; the probe inspects a local array
+	// (no globals in the program: nothing may carry over even without ResetVars; and ResetVars after an intervening run)
+	localsProg := `function count(word,    seen, k, c, z) { for (k in seen) c++; seen[word] = 1; seen[word "!"] = 1
+  if (word == "boom") return 1 / z; if (word == "quit") exit 3; if (word == "skip") next; for (k in seen) c++; return c }
+{ print $1, count($1) } END { print "end", count("e") }`
+	for _, first := range []string{"boom\n", "a\nquit\n", "skip\nboom\n"} {
+		corpus = append(corpus,
+			c14Case{Prog: localsProg, History: []c14Run{{Entry: "exec", Input: first}}, Reset: false, Probe: c14Run{Entry: "exec", Input: "a\nb\n"}},
+			c14Case{Prog: localsProg, History: []c14Run{{Entry: "exec", Input: first}, {Entry: "exec", Input: ""}}, Reset: true, Probe: c14Run{Entry: "exec", Input: "a\nb\n"}})
+	}
 	type job struct {
 		cs   c14Case
 		kind string
@@ -730,6 +743,16 @@ func runC14(c *vh.Ctx) {
 		kind := "ops:reset"
 		if !cs.Reset {
 			kind = "ops:noreset-varfree"
+		}
+		jobs = append(jobs, job{cs, kind})
+	}
+
+	// ---- locals of user functions after runs that were cut short inside functions (locals.go); with and without reset ----
+	for i := c.N(1500, 30000); i > 0; i-- {
+		cs := genLocalsCase(c.Rng)
+		kind := "locals:reset"
+		if !cs.Reset {
+			kind = "locals:noreset-global-free"
 		}
 		jobs = append(jobs, job{cs, kind})
 	}
